@@ -15,7 +15,7 @@ from .clocksim import StackedLTV
 
 NAME = "lqrsim"
 SIM_UNIT = "horizon steps solved"
-BUDGET = {"quick": {"runs": 1500, "wall": 80}, "thorough": {"runs": 60000, "wall": 1500}}
+BUDGET = {"quick": {"runs": 8000, "wall": 80}, "thorough": {"runs": 60000, "wall": 1500}}
 SHRINK_LISTS = ("ops",)
 PROBES = {"C14": ["second-solve", "solve-at-stale-clock", "solve-after-jump", "solve-after-syscall", "ltv", "lti",
                   "ns=1", "batch>1", "T=1", "u:none", "u:zeros", "u:random", "u:prev", "two-lqr-share-system",
